@@ -123,8 +123,17 @@ def helper_set(j):
                 if s_ <= bi and not b_["blocks"][s_]["cleanup"]:
                     return False          # a back edge: a loop
         return True
-    lvl1 = {p_ for p_ in lvl1 if p_ in lvl0 or not thin(p_)}
-    lvl2 = {p_ for p_, cs in callees.items() if cs & lvl1}
+    # ... and except a composite of the primitive type's own interface (`WakerList::new_all_queued(cap)` = `new(cap)` followed
+    # by `push(i)` for every i): every crate function it calls is a method of its own type that touches the primitives itself,
+    # so it adds nothing but sequencing (the vacating drain, which calls the non-vacating one, is a role of its own)
+    def own_composite(p_):
+        f_ = fns.get(p_)
+        if f_ is None or not f_.get("impl") or p_.startswith("<"):
+            return False
+        cc = [c for c in callees[p_] if c in bodies]
+        return bool(cc) and all((fns.get(c) or {}).get("impl") == f_["impl"] and c in lvl0 for c in cc)
+    lvl1 = {p_ for p_ in lvl1 if p_ in lvl0 or not (thin(p_) or own_composite(p_))}
+    lvl2 = {p_ for p_, cs in callees.items() if cs & lvl1 and (p_ in lvl0 or not own_composite(p_))}
     interface = lvl0 | lvl1 | lvl2
     private_traits = {f_["trait_decl"] for f_ in j["fns"] if f_.get("trait_decl") and not f_.get("effective_pub") and
                       (f_["vis"].startswith("in ") or f_["vis"] == "crate")}
@@ -132,6 +141,17 @@ def helper_set(j):
     for im in j["impls"]:
         if im.get("trait") in private_traits and not im.get("negative"):
             private_trait_impl_methods |= set(im.get("items", []))
+    call_sites = {}
+    for b_ in j["bodies"]:
+        if b_["kind"] in ("Fn", "AssocFn", "Closure") and b_["promoted"] is None:
+            lst = []
+            for blk in b_["blocks"]:
+                t = blk["term"]
+                if t["k"] in ("call", "tailcall") and not blk["cleanup"]:
+                    nm = _callee_name(t)
+                    if nm:
+                        lst.append(nm)
+            call_sites[b_["path"]] = lst
     for path, b in bodies.items():
         f = fns.get(path)
         if f is None:
@@ -161,8 +181,18 @@ def helper_set(j):
                     calls_prim = True
                 if nm == path:
                     recursive = True
-        if calls_prim or recursive:
+        if recursive:
             continue
+        if calls_prim:
+            # a helper around an anchor primitive keeps its body (the role lives in it) -- unless it is private, called from
+            # exactly one place and never handed out, and all it does with the primitives is allocate / construct: then the
+            # role simply belongs to that caller (`alloc_block(layout)`, `init_header(cap, stub)` split off the constructor)
+            sites = sum(1 for p2, cs2 in call_sites.items() for c2 in cs2 if c2 == path)
+            only_alloc = all(re.search(r"^alloc::alloc::(alloc|alloc_zeroed|realloc|handle_alloc_error)$|core::alloc::Layout::|"
+                                       r"(cordyceps::MpscQueue|diatomic_waker::DiatomicWaker)::(<.*>::)?new\w*$", c2)
+                             for c2 in callees.get(path, ()) if ANCHOR_PRIMS.search(c2))
+            if not (private and sites == 1 and path not in taken and only_alloc):
+                continue          # (the reference-count and queue primitives' wrappers are roles of their own)
         helpers.add(path)
     return helpers, bodies
 
@@ -285,6 +315,7 @@ def _subst_local(blk, frm, to):
 
 
 IMPLS = []          # the impl table of the fact file being canonicalised (set by inline_facts)
+GENERICS = {}       # fn path -> names of its type / const parameters (positionally the `def_args` of a call)
 
 
 def _bind_generics(c, t):
@@ -296,10 +327,24 @@ def _bind_generics(c, t):
         ct = blk["term"]
         if ct["k"] == "call" and ct["func"]["k"] == "const" and "fn" in ct["func"]:
             fn = ct["func"]["fn"]
-            if fn.get("trait") and fn.get("local") and re.match(r"^[A-Z]\w*$", fn.get("self_ty") or "") and not fn.get("res"):
+            if fn.get("trait") and not fn.get("res") and (
+                    (fn.get("local") and re.match(r"^[A-Z]\w*$", fn.get("self_ty") or "")) or
+                    # a std trait's method on a type parameter (named, or an argument-position `impl Trait`): it is the
+                    # crate's own impl when the call site binds the parameter to a crate type that has one
+                    (re.match(r"^([A-Z]\w*|impl .*)$", fn.get("self_ty") or "") and fn["self_ty"] in c["locals"][1:c["arg_count"] + 1])):
                 names.add(fn["self_ty"])
     out = {}
+    # parameters named at the call (`poll_settled::<F, KeepAll>(..)`), whether or not an argument's type mentions them
+    gen = GENERICS.get(c["path"])
+    cfn = t["func"].get("fn") or {}
+    cargs = cfn.get("res_args") if cfn.get("res") == c["path"] else (cfn.get("def_args") if cfn.get("def") == c["path"] else None)
+    if gen and cargs and len(gen) == len(cargs):
+        for nm, ty_ in zip(gen, cargs):
+            if nm in names and ty_ != nm and not re.match(r"^([A-Z]\w*|impl .*)$", ty_):
+                out[nm] = ty_
     for nm in names:
+        if nm in out:
+            continue
         for k, a in enumerate(t["args"], start=1):
             if k > c["arg_count"]:
                 break
@@ -705,6 +750,79 @@ def _closure_def(b, local):
     return found
 
 
+def _expand_combinator_fn_item(b, i, spec, stats):
+    """`opt.and_then(Slot::project)`: the callable is a function item of this crate, not a closure -- the arm that would run
+    the closure calls the function with the payload (the ordinary helper inlining then reads through it)."""
+    blk = b["blocks"][i]
+    t = blk["term"]
+    f = t["func"]
+    variants, cpos, actions, pidx = spec
+    scrut, cl = t["args"][0], t["args"][cpos]
+    if any(a[0] in ("call0", "argval") for a in actions.values()) or len(b["blocks"]) + 8 > MAX_BLOCKS:
+        return False
+    m = re.search(r"-> (.*) \{[^{}]*\}$", cl["ty"])
+    if m is None:
+        return False
+    rty = m.group(1)
+    span = t["span"]
+    dest, target = t["dest"], t["target"]
+    def_args = f["fn"].get("def_args") or []
+    out_adt = dest["ty"].split("<")[0]
+    sp = scrut["place"]
+
+    def new_local(ty):
+        b["locals"].append(ty)
+        return len(b["locals"]) - 1
+
+    def new_block(stmts, term):
+        b["blocks"].append({"stmts": stmts, "term": term, "cleanup": False})
+        return len(b["blocks"]) - 1
+
+    def payload(vname):
+        vi = [int(v) for v, n in variants if n == vname][0]
+        ty = def_args[pidx[vname]] if vname in pidx and pidx[vname] < len(def_args) else "?"
+        return {"l": sp["l"], "p": list(sp["p"]) + [{"k": "downcast", "variant": vname, "idx": vi},
+                                                    {"k": "field", "i": 0, "name": "0", "ty": ty}], "ty": ty}
+
+    def assign(place, rv):
+        return {"k": "assign", "place": copy.deepcopy(place), "rv": rv, "span": span}
+
+    def agg(variant, ops):
+        return {"k": "aggregate", "agg": "adt", "adt": out_adt, "adt_args": [], "variant": variant,
+                "fields": ["0"] if ops else [], "ops": ops}
+    dl = new_local("isize")
+    blk["stmts"].append(assign({"l": dl, "p": [], "ty": "isize"}, {"k": "discr", "place": copy.deepcopy(sp), "variants": variants}))
+    unreach = new_block([], {"k": "unreachable", "span": span})
+    targets = []
+    for val, vname in variants:
+        act = actions[vname]
+        if act[0] == "call":
+            tmp = new_local(rty)
+            ret = {"k": "move", "place": {"l": tmp, "p": [], "ty": rty}}
+            rv = agg(act[1], [ret]) if act[1] else {"k": "use", "op": ret}
+            after = new_block([assign(dest, rv)], {"k": "goto", "target": target, "span": span})
+            entry = new_block([], {"k": "call", "func": copy.deepcopy(cl), "args": [{"k": "move", "place": payload(vname)}],
+                                   "dest": {"l": tmp, "p": [], "ty": rty}, "target": after, "unwind": None, "span": span})
+            targets.append([val, entry])
+        else:
+            if act[0] == "unit":
+                rv = agg(act[1], [])
+            elif act[0] == "rewrap":
+                rv = agg(act[1], [{"k": "move", "place": payload(vname)}])
+            elif act[0] == "payload":
+                rv = {"k": "use", "op": {"k": "move", "place": payload(vname)}}
+            elif act[0] == "scrut":
+                rv = {"k": "use", "op": {"k": "move", "place": copy.deepcopy(sp)}}
+            else:
+                rv = {"k": "use", "op": {"k": "const", "ty": "bool", "bits": act[1]}}
+            targets.append([val, new_block([assign(dest, rv)], {"k": "goto", "target": target, "span": span})])
+    nm = cl["fn"].get("res") or cl["fn"].get("def")
+    blk["term"] = {"k": "switch", "discr": {"k": "move", "place": {"l": dl, "p": [], "ty": "isize"}}, "targets": targets,
+                   "otherwise": unreach, "span": span, "inlined": f["fn"].get("def") + " with fn " + nm}
+    stats["fn-item:" + nm] = stats.get("fn-item:" + nm, 0) + 1
+    return True
+
+
 def expand_combinator(b, i, closures, stats):
     blk = b["blocks"][i]
     t = blk["term"]
@@ -718,6 +836,8 @@ def expand_combinator(b, i, closures, stats):
     if len(t["args"]) <= cpos:
         return False
     scrut, cl = t["args"][0], t["args"][cpos]
+    if scrut["k"] in ("copy", "move") and cl["k"] == "const" and (cl.get("fn") or {}).get("res_local"):
+        return _expand_combinator_fn_item(b, i, spec, stats)
     if scrut["k"] not in ("copy", "move") or cl["k"] != "move" or cl["place"]["p"]:
         return False
     cd = _closure_def(b, cl["place"]["l"])
@@ -964,6 +1084,8 @@ def _fold_known_switches(c):
         rv = s_["rv"]
         if rv["k"] == "aggregate" and rv.get("agg") == "adt" and not rv.get("ops"):
             return rv["variant"]
+        if rv["k"] == "use" and rv["op"]["k"] == "const" and rv["op"].get("variant"):
+            return rv["op"]["variant"]          # a field-less enum constant passed directly (`try_push_at(End::Back, ..)`)
         if rv["k"] == "use" and rv["op"]["k"] in ("move", "copy"):
             pl = rv["op"]["place"]
             if not pl["p"]:
@@ -982,9 +1104,19 @@ def _fold_known_switches(c):
         if t["k"] != "switch" or t["discr"]["k"] not in ("move", "copy") or t["discr"]["place"]["p"]:
             continue
         d = _single_assign(c, t["discr"]["place"]["l"])
-        if d is None or d["rv"]["k"] != "discr" or d["rv"]["place"]["p"]:
+        if d is None or d["rv"]["k"] != "discr":
             continue
-        v = variant_of(d["rv"]["place"]["l"])
+        dp = d["rv"]["place"]
+        if not dp["p"]:
+            v = variant_of(dp["l"])
+        elif [e["k"] for e in dp["p"]] == ["deref"]:
+            # discriminant(*r): the referent of r
+            r_ = _single_assign(c, dp["l"])
+            while r_ is not None and r_["rv"]["k"] == "use" and r_["rv"]["op"]["k"] in ("move", "copy") and not r_["rv"]["op"]["place"]["p"]:
+                r_ = _single_assign(c, r_["rv"]["op"]["place"]["l"])
+            v = variant_of(r_["rv"]["place"]["l"]) if (r_ is not None and r_["rv"]["k"] == "ref" and not r_["rv"]["place"]["p"]) else None
+        else:
+            continue
         if v is None:
             continue
         val = [x[0] for x in d["rv"]["variants"] if x[1] == v]
@@ -1157,7 +1289,7 @@ def expand_combinators(j):
                         cd = _closure_def(b, a["place"]["l"]) if not a["place"]["p"] else None
                         if cd:
                             remaining_uses[cd[0]] = remaining_uses.get(cd[0], 0) + 1
-    fully = sorted(p for p in stats if not p.startswith("<value>") and remaining_uses.get(p, 0) == 0)
+    fully = sorted(p for p in stats if not p.startswith("<value>") and not p.startswith("fn-item:") and remaining_uses.get(p, 0) == 0)
     return stats, fully
 
 
@@ -1178,8 +1310,9 @@ def _only_captured(j, cpath):
 
 def inline_facts(j):
     """Inline helper calls in all function bodies of the fact JSON (in place).  Returns (helpers, stats)."""
-    global IMPLS
+    global IMPLS, GENERICS
     IMPLS = j.get("impls", [])
+    GENERICS = {f_["path"]: f_.get("generics") or [] for f_ in j.get("fns", [])}
     helpers, bodies = helper_set(j)
     originals = {p: copy.deepcopy(b) for p, b in bodies.items() if p in helpers}
     stats = {}
@@ -1208,6 +1341,23 @@ def inline_facts(j):
                     still_built.add(s_["rv"]["closure"])
     fully += sorted(p for p in made if p not in still_built)
     cstats, cfully = expand_combinators(j)
+    if any(k_.startswith("fn-item:") for k_ in cstats):
+        # a combinator was expanded with a function item of this crate as its callable: that call is a direct call now
+        for b in j["bodies"]:
+            if b["kind"] in ("Fn", "AssocFn", "Closure") and b["promoted"] is None:
+                inline_body(b, helpers, originals, stats)
+        remaining = set()
+        for b in j["bodies"]:
+            for blk in b["blocks"]:
+                t = blk["term"]
+                if t["k"] in ("call", "tailcall"):
+                    nm = _callee_name(t)
+                    if nm in helpers and b["path"] not in helpers:
+                        remaining.add(nm)
+                for a in (t.get("args") or []) if t["k"] in ("call", "tailcall") else []:
+                    if a["k"] == "const" and (a.get("fn") or {}).get("res") in helpers:
+                        remaining.add(a["fn"]["res"])      # still handed to something as a value
+        fully = sorted(set(fully) | {h for h in helpers if h in stats and h not in remaining})
     for p_, n_ in kstats.items():
         cstats[p_] = cstats.get(p_, 0) + n_
     # closures that were spliced into specialised copies and are not handed to anything else
